@@ -162,6 +162,12 @@ void h_run(Ctx &c)
 			}
 			unsigned long long below = 1 + t.choose(600); // messages until the fold
 			unsigned long long target = 0x7fffffffull - below;
+			if (c.feat(2) && t.flip()) {
+				// or close to another place where the counter's low bits are all zero again: a multiple of 2^16, 2^24, 2^30
+				static const unsigned long long ROUND[] = { 1ull << 16, 2ull << 16, 3ull << 16, 1ull << 24, 1ull << 30 };
+				target = ROUND[t.choose(5)] - t.choose(300);
+				c.cls("counter-moved-next-to-a-multiple-of-2^16");
+			}
 			target -= (target - real_head) % 256; // congruent to the current counter
 			if (target <= real_head) {
 				c.cls("skipped-op");
